@@ -120,6 +120,6 @@ fn main() {
     }
     let f: Vec<String> = failures.iter().map(|(i, w)| format!("{{\"input\":{},\"what\":{}}}", jstr(i), jstr(w))).collect();
     let s: Vec<String> = samples.iter().map(|x| jstr(x)).collect();
-    println!("{{\"family\":\"spawn_agree\",\"cases\":{},\"passed\":{},\"exhaustive\":false,\"failures\":[{}],\"samples\":[{}],\"notes\":[{}]}}",
-        cases, passed, f.join(","), s.join(","), jstr(&format!("14 programs x 3 inputs x 3 calling-thread contexts (main / named / unnamed) x {} repetitions; one schedule per run", reps)));
+    println!("{{\"family\":\"spawn_agree\",\"cases\":{},\"passed\":{},\"nontrivial\":{},\"exhaustive\":false,\"failures\":[{}],\"samples\":[{}],\"notes\":[{}]}}",
+        cases, passed, cases, f.join(","), s.join(","), jstr(&format!("14 programs x 3 inputs x 3 calling-thread contexts (main / named / unnamed) x {} repetitions; one schedule per run", reps)));
 }
